@@ -26,7 +26,14 @@ var c04Names = func() []string {
 	return out
 }()
 
-var c04Dirs = []string{"dir", "dir/sub", "dir2", "dir2/sub", "emptydir"}
+var c04Dirs = func() []string {
+	out := []string{"dir", "dir/sub", "dir2", "dir2/sub", "emptydir"}
+	// enough directories to occupy every worker several times over
+	for i := 0; i < 40; i++ {
+		out = append(out, fmt.Sprintf("dd%02d", i))
+	}
+	return out
+}()
 var c04Contents = []string{"", "0", "1", "01", "10", "hello\n", "hello", "00", "001"}
 
 // Edit is one step of a C04 edit script.
@@ -50,10 +57,12 @@ type DigestCase struct {
 type digestBook struct {
 	bySet    map[string]string // canonical set -> digest
 	byDigest map[string]string // digest -> canonical set
+	// digests of lists with duplicate entries -> canonical set (one-directional: see execDigest)
+	dupByDigest map[string]string
 }
 
 func newBook() *digestBook {
-	return &digestBook{bySet: map[string]string{}, byDigest: map[string]string{}}
+	return &digestBook{bySet: map[string]string{}, byDigest: map[string]string{}, dupByDigest: map[string]string{}}
 }
 
 func canonical(root string, files map[string]string) string {
@@ -142,6 +151,10 @@ func execDigest(s *ev.Shard, root string, book *digestBook, c DigestCase) *rp.Fa
 			variants = append(variants, rot)
 		}
 		if len(c.Dirs) > 0 {
+			// all directories ahead of the files (as many as there are workers, or more)
+			variants = append(variants, append(absList(root, c.Dirs), base...))
+		}
+		if len(c.Dirs) > 0 {
 			// directories interleaved at the front, the middle and the end
 			d := absList(root, c.Dirs)
 			mixed := append([]string(nil), d[0])
@@ -163,7 +176,7 @@ func execDigest(s *ev.Shard, root string, book *digestBook, c DigestCase) *rp.Fa
 					first = d
 				} else if d != first {
 					what := "a reordering of the same list"
-					if vi == len(variants)-1 && len(c.Dirs) > 0 {
+					if vi >= len(variants)-2 && len(c.Dirs) > 0 {
 						what = "the same list with directories interleaved"
 					}
 					if vi == 0 {
@@ -184,6 +197,9 @@ func execDigest(s *ev.Shard, root string, book *digestBook, c DigestCase) *rp.Fa
 		set := canonical(root, files)
 		if prev, ok := book.bySet[set]; ok && prev != d {
 			return &rp.Fail{Sig: "same-set-different-digest", Size: size, Msg: fmt.Sprintf("%s: the file set {%s} had digest %s before and %s now", step, describeSet(set), prev, d)}
+		}
+		if other, ok := book.dupByDigest[d]; ok && other != set {
+			return &rp.Fail{Sig: "different-sets-same-digest", Size: size, Msg: fmt.Sprintf("%s: digest %s for {%s} was also the digest of a list with duplicate entries over the different set {%s}", step, d, describeSet(set), describeSet(other))}
 		}
 		if other, ok := book.byDigest[d]; ok && other != set {
 			return &rp.Fail{Sig: "different-sets-same-digest", Size: size, Msg: fmt.Sprintf("%s: digest %s for {%s} was also the digest of the different set {%s}", step, d, describeSet(set), describeSet(other))}
@@ -208,6 +224,16 @@ func execDigest(s *ev.Shard, root string, book *digestBook, c DigestCase) *rp.Fa
 		if err1 != nil || err2 != nil || d1 != d2 {
 			return &rp.Fail{Sig: "digest-not-deterministic", Size: size, Msg: fmt.Sprintf("list with duplicate entries %v: digests %s / %s (errors %v / %v) for two orders of the same multiset", dl, d1, d2, err1, err2)}
 		}
+		// whether a repeated entry counts once or twice is left open, but a list with duplicates
+		// must never share its digest with a list over a DIFFERENT set of (path, content) pairs
+		set := canonical(root, files)
+		if other, ok := book.byDigest[d1]; ok && other != set {
+			return &rp.Fail{Sig: "different-sets-same-digest", Size: size, Msg: fmt.Sprintf("list with duplicate entries %v over the set {%s} has digest %s, which is also the digest of the different set {%s}", dl, describeSet(set), d1, describeSet(other))}
+		}
+		if prev, ok := book.dupByDigest[d1]; ok && prev != set {
+			return &rp.Fail{Sig: "different-sets-same-digest", Size: size, Msg: fmt.Sprintf("two lists with duplicate entries over different sets ({%s} and {%s}) share the digest %s", describeSet(set), describeSet(prev), d1)}
+		}
+		book.dupByDigest[d1] = set
 	}
 	for i, e := range c.Script {
 		step := fmt.Sprintf("after edit %d (%s %s %s)", i, e.Op, e.Name, e.Name2)
